@@ -132,9 +132,10 @@ EngineDone(k) ==
 
 Server == HandlerWrite \/ HandlerNext \/ \E k \in KS : ExecStart(k) \/ EngineWrite(k) \/ EngineDone(k)
 \* graphql-ws treats everything it does not know alike: one representative per class keeps the model small
-MCAlphabet == IF Proto = "gws" THEN Alphabet \ {"pong", "unknown", "binary"} ELSE Alphabet
+\* (the two-operation document behaves like sub1q / sub2s for the protocol: left to the generator)
+MCAlphabet == (IF Proto = "gws" THEN Alphabet \ {"pong", "unknown", "binary"} ELSE Alphabet) \ {"sub1dq", "sub2ds"}
 Env    == (\E sym \in MCAlphabet : ClientSend(sym)) \/ ClientGone \/ InitTimeout \/ Broken
-          \/ \E k \in KS, what \in {"data", "fin", "error", "result"} : EngineEv(k, what)
+          \/ \E k \in KS, what \in {"data", "fin", "error", "result", "qflush"} : EngineEv(k, what)
 
 \* the end of a behaviour: the connection is over and every goroutine has written what it had
 Over == (s.closed \/ gone) /\ ~hbusy /\ \A k \in KS : ew[k] = "" /\ s.ex[k].st # "starting"
